@@ -1390,6 +1390,23 @@ def run(chk, ctx):
                 k_compare(chk, 'misid_func', dict(fs=inp, p=float(p), params=[c0], scale=sc),
                           lambda: mf([c0, p], None, scale=sc), 'c09.misid %s %s' % (rat(float(p)), fs_toks(base)), driver)
                 chk.l3(('misid_func', d))
+                # the same wrapped function again with the same parameters and only a KEYWORD argument changed, then changed back (what an
+                # optimiser does with pts=...): each call is the misidentified spectrum of the model called with the arguments given
+                sc2 = 4.0 if sc == 1.0 else 1.0
+                for step_, sck in enumerate((sc2, sc)):
+                    k_compare(chk, 'misid_func', dict(fs=inp, p=float(p), params=[c0], scale=sck, after_scale=(sc, sc2)[step_]),
+                              lambda: mf([c0, p], None, scale=sck), 'c09.misid %s %s' % (rat(float(p)), fs_toks(fs * (c0 * sck))), driver)
+                    try:
+                        got_ = mf([c0, p], None, scale=sck); want_ = dadi.Numerics.apply_anc_state_misid(func([c0], None, scale=sck), p)
+                        same_ = (np.array_equal(np.ma.getmaskarray(got_), np.ma.getmaskarray(want_))
+                                 and np.allclose(np.ma.filled(got_, 0.0), np.ma.filled(want_, 0.0), rtol=1e-12, atol=0))
+                    except Exception as e:
+                        chk.fail('misid_func:sequence:%s' % type(e).__name__, 'wrapped function raises %r on a repeated call' % (e,), dict(fs=inp, p=float(p), scale=sck)); break
+                    chk.l3(('misid_func:sequence', d, step_))
+                    if not same_:
+                        chk.fail('misid_func:sequence', 'make_anc_state_misid_func(func)([c, p], ns, scale=%g) after a call with scale=%g is not '
+                                 'apply_anc_state_misid(func([c], ns, scale=%g), p)' % (sck, (sc, sc2)[step_], sck), dict(fs=inp, p=float(p), params=[c0], scales=[sc, sc2, sc]))
+                        break
                 if mf.__name__ != 'func_misid':
                     chk.fail('misid_func:name', 'wrapped function name %r' % mf.__name__, dict(fs=inp))
             # unary + slicing (L3, slicing also K)
